@@ -340,17 +340,14 @@ def _extract_attributes(element):
             else sqname.localname,
         )
 
+        datatype = langtag = ref = None
         for key, value in subel.attrib.items():
             if key == _ns_xsi("type"):
                 datatype = xml_qname_to_QualifiedName(subel, value)
-                if datatype == XSD_QNAME:
-                    _v = xml_qname_to_QualifiedName(subel, text)
-                else:
-                    _v = prov.model.Literal(text, datatype)
             elif key == _ns_prov("ref"):
-                _v = xml_qname_to_QualifiedName(subel, value)
+                ref = xml_qname_to_QualifiedName(subel, value)
             elif key == _ns_xml("lang"):
-                _v = prov.model.Literal(text, langtag=value)
+                langtag = value
             else:
                 warnings.warn(
                     "The element '%s' contains an attribute %s='%s' "
@@ -360,7 +357,14 @@ def _extract_attributes(element):
                     UserWarning,
                 )
 
-        if not subel.attrib:
+        # the value does not depend on the order of the XML attributes
+        if ref is not None:
+            _v = ref
+        elif datatype == XSD_QNAME:
+            _v = xml_qname_to_QualifiedName(subel, text)
+        elif datatype is not None or langtag is not None:
+            _v = prov.model.Literal(text, datatype, langtag)
+        else:
             _v = text
 
         attributes.append((_t, _v))
